@@ -698,7 +698,19 @@ def owner_rule(c, cores, elem):
     for f in [cores["Cell"]] + c.fn("swap_cell_indices"):
         sites = [e for e in elem.get(f.id, []) if e["cache"] == fc and e["what"] == "assign"]
         if not sites:
-            ck.violate("C01.owner", f.where, "%s no longer updates %s" % (f.name, fc), "C01.owner:%s:none" % f.pq)
+            # the write may have moved into a local lambda (round 5, C09i): that is not "no update" - the rule reads the
+            # function's own effects only, so it does not judge that formulation
+            from .canon import Canon
+            moved = False
+            for g in fb.fns.values():
+                if g.kind == "lambda" and (g.d.get("lambda_parent") or "").startswith(f.id) and g.has_cfg:
+                    cg = Canon(g)
+                    if any(as_assign(x) and fc + "[" in cg.s(as_assign(x)[0]) for b, i, x in g.tops()):
+                        moved = True
+            if moved:
+                ck.cannot_judge("C01.owner %s: %s updates %s inside a local lambda (formulation not judged)" % (f.where, f.name, fc))
+            else:
+                ck.violate("C01.owner", f.where, "%s no longer updates %s" % (f.name, fc), "C01.owner:%s:none" % f.pq)
         for e in sites:
             ok = False
             for cond, pol, edge in f.facts(e["pos"][0]):
